@@ -1,8 +1,198 @@
 import PyresampleModel.Model.C04
+import PyresampleModel.Proofs.Num
 
 /-
-  C04 — property theorems (stub: none yet).
+  C04 — property theorems for weighted (gauss / custom) resampling, per target location and channel.
 -/
 namespace PyresampleModel.C04
+
+/-- the contributing neighbours: real neighbours within the radius -/
+def liveSlots (slots : List Slot) : List Slot := slots.filter (·.live)
+
+def sumW (ss : List Slot) : Rat := (ss.map (·.w)).sum
+def sumWX (ss : List Slot) : Rat := (ss.map (fun s => s.w * s.x)).sum
+
+theorem aux_accum_gen (slots : List Slot) : ∀ (a b : Rat),
+    slots.foldl (fun (acc : Rat × Rat) s =>
+      let wt := if s.live then s.w else 0
+      (acc.1 + wt * s.x, acc.2 + wt)) (a, b) = (a + sumWX (liveSlots slots), b + sumW (liveSlots slots)) := by
+  induction slots with
+  | nil => intro a b; simp [liveSlots, sumW, sumWX]
+  | cons s ss ih =>
+    intro a b
+    simp only [List.foldl_cons]
+    rw [ih]
+    cases hs : s.live
+    · simp [liveSlots, hs, sumW, sumWX]
+    · simp only [liveSlots, List.filter_cons, hs, if_true, sumW, sumWX, List.map_cons, List.sum_cons]
+      apply Prod.ext <;> simp only <;> ring
+
+theorem accum_eq (slots : List Slot) : accum slots = (sumWX (liveSlots slots), sumW (liveSlots slots)) := by
+  have := aux_accum_gen slots 0 0
+  simpa [accum] using this
+
+/-- **weighted resampling = normalised weighted mean over the neighbours in range**: dead slots
+(no neighbour) contribute nothing whatever weight the weight function returns for them; with no
+positive total weight the location is filled -/
+theorem weighted_eq_spec (slots : List Slot) :
+    weighted slots = if sumW (liveSlots slots) > 0 then some (sumWX (liveSlots slots) / sumW (liveSlots slots)) else none := by
+  simp only [weighted, accum_eq]
+
+/-- **count** = number of contributing neighbours -/
+theorem count_eq (slots : List Slot) : count slots = (liveSlots slots).length := rfl
+
+theorem aux_sum_bounds (ss : List Slot) (m M : Rat) (hw : ∀ s ∈ ss, 0 ≤ s.w) (hx : ∀ s ∈ ss, m ≤ s.x ∧ s.x ≤ M) :
+    m * sumW ss ≤ sumWX ss ∧ sumWX ss ≤ M * sumW ss := by
+  induction ss with
+  | nil => simp [sumW, sumWX]
+  | cons s ss ih =>
+    have h1 := hw s List.mem_cons_self
+    have h2 := hx s List.mem_cons_self
+    have := ih (fun t ht => hw t (List.mem_cons_of_mem _ ht)) (fun t ht => hx t (List.mem_cons_of_mem _ ht))
+    simp only [sumW, sumWX, List.map_cons, List.sum_cons] at this ⊢
+    constructor <;> nlinarith
+
+/-- **no invented values**: with non-negative weights the result lies within the range of the
+contributing neighbours' values — so a constant field is reproduced -/
+theorem weighted_convex (slots : List Slot) (m M r : Rat)
+    (hw : ∀ s ∈ liveSlots slots, 0 ≤ s.w) (hx : ∀ s ∈ liveSlots slots, m ≤ s.x ∧ s.x ≤ M)
+    (h : weighted slots = some r) : m ≤ r ∧ r ≤ M := by
+  rw [weighted_eq_spec] at h
+  split at h
+  · rename_i hpos
+    simp only [Option.some.injEq] at h
+    subst h
+    obtain ⟨h1, h2⟩ := aux_sum_bounds _ m M hw hx
+    constructor
+    · rw [le_div_iff₀ hpos]; exact h1
+    · rw [div_le_iff₀ hpos]; exact h2
+  · cases h
+
+theorem weighted_const (slots : List Slot) (c r : Rat)
+    (hw : ∀ s ∈ liveSlots slots, 0 ≤ s.w) (hx : ∀ s ∈ liveSlots slots, s.x = c)
+    (h : weighted slots = some r) : r = c := by
+  have := weighted_convex slots c c r hw (fun s hs => by rw [hx s hs]; exact ⟨le_refl _, le_refl _⟩) h
+  linarith [this.1, this.2]
+
+theorem aux_sums_nonneg (ss : List Slot) (hw : ∀ s ∈ ss, 0 ≤ s.w) (hx : ∀ s ∈ ss, 0 ≤ s.x) :
+    0 ≤ sumWX ss ∧ 0 ≤ sumW ss := by
+  induction ss with
+  | nil => simp [sumW, sumWX]
+  | cons t ts ih =>
+    have a := hw t List.mem_cons_self
+    have b := hx t List.mem_cons_self
+    have ih' := ih (fun u hu => hw u (List.mem_cons_of_mem _ hu)) (fun u hu => hx u (List.mem_cons_of_mem _ hu))
+    have c : 0 ≤ t.w * t.x := mul_nonneg a b
+    simp only [sumW, sumWX, List.map_cons, List.sum_cons] at ih' ⊢
+    constructor <;> linarith [ih'.1, ih'.2]
+
+theorem aux_term_le_sum (ss : List Slot) (hw : ∀ s ∈ ss, 0 ≤ s.w) (hx : ∀ s ∈ ss, 0 ≤ s.x) :
+    ∀ s ∈ ss, s.w * s.x ≤ sumWX ss := by
+  induction ss with
+  | nil => intro s hs; simp at hs
+  | cons t ts ih =>
+    intro s hs
+    have hw' : ∀ u ∈ ts, 0 ≤ u.w := fun u hu => hw u (List.mem_cons_of_mem _ hu)
+    have hx' : ∀ u ∈ ts, 0 ≤ u.x := fun u hu => hx u (List.mem_cons_of_mem _ hu)
+    have nn := aux_sums_nonneg ts hw' hx'
+    have c : 0 ≤ t.w * t.x := mul_nonneg (hw t List.mem_cons_self) (hx t List.mem_cons_self)
+    simp only [sumWX, List.map_cons, List.sum_cons] at nn ⊢
+    rcases List.mem_cons.mp hs with rfl | hs
+    · linarith [nn.1]
+    · have := ih hw' hx' s hs
+      simp only [sumWX] at this
+      linarith
+
+theorem aux_sumWX_zero (ss : List Slot) (h : ∀ s ∈ ss, s.w * s.x = 0) : sumWX ss = 0 := by
+  induction ss with
+  | nil => simp [sumWX]
+  | cons t ts ih =>
+    simp only [sumWX, List.map_cons, List.sum_cons]
+    have := ih (fun u hu => h u (List.mem_cons_of_mem _ hu))
+    simp only [sumWX] at this
+    rw [h t List.mem_cons_self, this]; ring
+
+/-- **a masked neighbour masks the result**: in the mask channel (values 0 / 1, non-negative
+weights) the weighted mean is non-zero — the output is masked — exactly when some contributing
+neighbour with positive weight is masked -/
+theorem masked_neighbour_masks (slots : List Slot) (r : Rat)
+    (hw : ∀ s ∈ liveSlots slots, 0 ≤ s.w) (hx : ∀ s ∈ liveSlots slots, s.x = 0 ∨ s.x = 1)
+    (h : weighted slots = some r) :
+    r ≠ 0 ↔ ∃ s ∈ liveSlots slots, 0 < s.w ∧ s.x = 1 := by
+  rw [weighted_eq_spec] at h
+  split at h
+  · rename_i hpos
+    simp only [Option.some.injEq] at h
+    subst h
+    have hx0 : ∀ s ∈ liveSlots slots, 0 ≤ s.x := by
+      intro s hs; rcases hx s hs with e | e <;> rw [e] <;> norm_num
+    constructor
+    · intro hne
+      by_contra hno
+      apply hne
+      have : sumWX (liveSlots slots) = 0 := by
+        apply aux_sumWX_zero
+        intro s hs
+        rcases hx s hs with e | e
+        · rw [e]; ring
+        · have : ¬ 0 < s.w := fun hp => hno ⟨s, hs, hp, e⟩
+          have : s.w = 0 := le_antisymm (not_lt.mp this) (hw s hs)
+          rw [this]; ring
+      rw [this]; simp
+    · rintro ⟨s, hs, hp, e⟩
+      have h1 := aux_term_le_sum _ hw hx0 s hs
+      rw [e] at h1
+      have : 0 < sumWX (liveSlots slots) := by linarith
+      exact (div_pos this hpos).ne'
+  · cases h
+
+def sumW2 (ss : List Slot) : Rat := (ss.map (fun s => s.w ^ 2)).sum
+def sumWD2 (mu : Rat) (ss : List Slot) : Rat := (ss.map (fun s => s.w * (s.x - mu) ^ 2)).sum
+
+theorem aux_fold_w2 (slots : List Slot) : ∀ (a : Rat),
+    slots.foldl (fun acc s => acc + (if s.live then s.w else 0) ^ 2) a = a + sumW2 (liveSlots slots) := by
+  induction slots with
+  | nil => intro a; simp [liveSlots, sumW2]
+  | cons s ss ih =>
+    intro a
+    simp only [List.foldl_cons]; rw [ih]
+    cases hs : s.live
+    · simp [liveSlots, hs, sumW2]
+    · simp only [liveSlots, List.filter_cons, hs, if_true, sumW2, List.map_cons, List.sum_cons]; ring
+
+theorem aux_fold_wd2 (mu : Rat) (slots : List Slot) : ∀ (a : Rat),
+    slots.foldl (fun acc s =>
+      let wt := if s.live then s.w else 0
+      let v := if s.live then s.x else 0
+      acc + wt * (v - mu) ^ 2) a = a + sumWD2 mu (liveSlots slots) := by
+  induction slots with
+  | nil => intro a; simp [liveSlots, sumWD2]
+  | cons s ss ih =>
+    intro a
+    simp only [List.foldl_cons]; rw [ih]
+    cases hs : s.live
+    · simp [liveSlots, hs, sumWD2]
+    · simp only [liveSlots, List.filter_cons, hs, if_true, sumWD2, List.map_cons, List.sum_cons]; ring
+
+/-- **uncertainty**: the squared standard deviation is the documented unbiased weighted estimator
+`V1 / (V1² − V2) · Σ wᵢ (xᵢ − μ)²` over the contributing neighbours (V1 = Σ wᵢ, V2 = Σ wᵢ²), and is
+undefined exactly when at most one neighbour contributes (or nothing has positive weight) -/
+theorem variance_eq_estimator (slots : List Slot) :
+    variance slots =
+      match weighted slots with
+      | none => none
+      | some mu =>
+        if (liveSlots slots).length > 1 then
+          some (sumW (liveSlots slots) / (sumW (liveSlots slots) ^ 2 - sumW2 (liveSlots slots)) * sumWD2 mu (liveSlots slots))
+        else none := by
+  unfold variance
+  cases h : weighted slots with
+  | none => rfl
+  | some mu =>
+    simp only [accum_eq, aux_fold_w2, aux_fold_wd2, zero_add, count_eq]
+
+/-! non-vacuity -/
+example : weighted [⟨true, 1, 4⟩, ⟨false, 5, 100⟩, ⟨true, 3, 8⟩] = some 7 := by decide +kernel
+example : count [⟨true, 1, 4⟩, ⟨false, 5, 100⟩, ⟨true, 3, 8⟩] = 2 := by decide
 
 end PyresampleModel.C04
